@@ -198,6 +198,14 @@ func (nb *nativeBuilder) run(files []string, inCmd, race bool, timeout time.Dura
 	var cur *NativeResult
 	curFile := ""
 	for _, line := range strings.Split(out, "\n") {
+		// the code under test may write to stderr without a final newline
+		// ("...\r"): markers can start in the middle of a line
+		for _, mk := range []string{"SXBEGIN file=", "SXOBS ", "SXDBG ", "SXKNOWN ", "SXRESULT "} {
+			if i := strings.Index(line, mk); i > 0 {
+				line = line[i:]
+				break
+			}
+		}
 		switch {
 		case strings.HasPrefix(line, "SXBEGIN file="):
 			curFile = strings.TrimPrefix(line, "SXBEGIN file=")
